@@ -39,10 +39,13 @@ BoundaryFill(M, i, b, g) ==
   IF i > Len(M.fields) THEN g
   ELSE LET F == M.fields[i]
            scalar == F.kind \in {"prim", "primlist", "primmap"} /\ ~F.placeholder
+           \* a field of a nullable embedded message: the holder is allocated by the first of its fields
+           g1 == IF scalar /\ F.oneof = "" /\ Len(F.gopath) > 1 /\ GetPath(g, Front(F.gopath)).t = "nil"
+                 THEN SetPath(g, Front(F.gopath), Ptr(F.pzero)) ELSE g
        IN BoundaryFill(M, i + 1, b,
             IF ~scalar THEN g
             ELSE IF F.oneof # "" THEN SetPath(g, F.opath, One(F.name, ScalarAt(F, b)))
-            ELSE SetPath(g, F.gopath, BoundaryField(F, b)))
+            ELSE SetPath(g1, F.gopath, BoundaryField(F, b)))
 
 \* one struct value per boundary value of the message's (single) scalar Go type
 BoundaryVals(M) ==
